@@ -15,6 +15,8 @@ package aggregator
 //     anything is aggregated: it contributes nothing. Invalid VALUES are not generated: the counter of
 //     such a row is aggregated before the value is looked at, which is not "nothing".
 //
+//   - string-top elements that carry an int tag and a string at once.
+//
 // Keys: the shared keys of the real agents (plain and extra layouts, same second) and keys of their
 // own, on which the two raw senders meet: in a part of the seconds one sends an invalid row and the
 // other a valid row for the same key, the invalid one first, its handler pausing right after the
@@ -50,7 +52,7 @@ const (
 )
 
 func (w *w1World) startRaws() {
-	for i := 0; i < 2; i++ {
+	for i := 0; i < 3; i++ { // the third one only sends window-edge historic seconds (rawEdge)
 		inst := &w1Inst{agent: w.cfg.agents + i, gen: 1, raw: true, host: fmt.Sprintf("w1-raw-%d", i), calls: map[*w1Call]struct{}{}}
 		w.raws = append(w.raws, inst)
 	}
@@ -186,6 +188,25 @@ func (w *w1World) rawBucket(ri int, T uint32) *tlstatshouse.SourceBucket3 {
 			value(row(w1MetricVal, [5]string{1: strconv.Itoa(950 + j)}), 200+uint64(j))
 		}
 	}
+	// an own key with string-top elements (no tail): element 77 as int tag only or as int tag AND string (the
+	// wire format allows both at once; TagUnion.Normalize: the int wins), and a string-only element
+	if k(2, w1SaltRaw, 400, uint64(ri)) == 1 {
+		it := row(w1MetricCnt, [5]string{1: "980"})
+		var top []tlstatshouse.TopElement
+		el := tlstatshouse.TopElement{}
+		el.SetTag(77)
+		if k(2, w1SaltRaw, 401, uint64(ri)) == 1 {
+			el.Stag = "seventy-seven"
+		}
+		el.Value.SetCounter(float64(1+k(5, w1SaltRawRow, 401, uint64(ri))), &el.FieldsMask)
+		top = append(top, el)
+		if k(2, w1SaltRaw, 402, uint64(ri)) == 1 {
+			el := tlstatshouse.TopElement{Stag: "top-string"}
+			el.Value.SetCounter(float64(1+k(5, w1SaltRawRow, 402, uint64(ri))), &el.FieldsMask)
+			top = append(top, el)
+		}
+		it.SetTop(top)
+	}
 	// shared keys of the real agents
 	if k(2, w1SaltRaw, 300, uint64(ri)) == 1 {
 		l := w.cfg.layouts[k(uint64(len(w.cfg.layouts)), w1SaltRaw, 301, uint64(ri))]
@@ -218,6 +239,7 @@ func (w *w1World) rawWorkload(nowUnix uint32) {
 		return
 	}
 	w.lastRaw = nowUnix
+	w.rawEdge(nowUnix)
 	T := nowUnix - 1
 	var sbs [2]*tlstatshouse.SourceBucket3
 	first := 0
@@ -238,7 +260,32 @@ func (w *w1World) rawWorkload(nowUnix uint32) {
 	}
 }
 
+// rawEdge: the third raw sender sends, as a historic request, the oldest second the owning replica still
+// accepts: oldest recent second minus the historic window (an agent that comes back after almost a
+// whole window of downtime sends such seconds first). The replica files it in a historic bucket; at its
+// next insert round, at most a second later, the bucket has left the window and is answered with the
+// deliberate "before historic window" discard. If nothing else waits, that round inserts no historic
+// bucket at all.
+func (w *w1World) rawEdge(nowUnix uint32) {
+	if w.c.Keyed(3, w1SaltRaw, uint64(nowUnix), 500) != 0 {
+		return
+	}
+	T := nowUnix - uint32(w.cfg.shortWindow) - uint32(w.cfg.window)
+	var sb tlstatshouse.SourceBucket3
+	key := data_model.Key{Timestamp: T, Metric: w1MetricMarker}
+	key.Tags[1] = int32(w.cfg.agents + 2 + 1)
+	sb.Metrics = append(sb.Metrics, key.TLMultiItemFromKey(T))
+	sb.Metrics[0].Tail.SetCounterEq1(true, &sb.Metrics[0].FieldsMask)
+	delay := time.Duration(2 * (1 + w.c.Keyed(200000, w1SaltRawDelay, uint64(T), 2)))
+	w.rawSendKind(w.raws[2], T, &sb, delay, true)
+	w.r.Extra["raw_window_edge_historic_requests_sent"]++
+}
+
 func (w *w1World) rawSend(inst *w1Inst, T uint32, sb *tlstatshouse.SourceBucket3, delay time.Duration) {
+	w.rawSendKind(inst, T, sb, delay, false)
+}
+
+func (w *w1World) rawSendKind(inst *w1Inst, T uint32, sb *tlstatshouse.SourceBucket3, delay time.Duration, historic bool) {
 	replica := int(T % 3) // what every agent does for a second whose owner it believes alive
 	framed := compress.CompressAndFrame(sb.WriteTL1Boxed(nil))
 	originalSize, compressed, err := compress.DeFrame(framed)
@@ -246,6 +293,7 @@ func (w *w1World) rawSend(inst *w1Inst, T uint32, sb *tlstatshouse.SourceBucket3
 		panic(err)
 	}
 	args := tlstatshouse.SendSourceBucket3{Time: T, OriginalSize: originalSize, CompressedData: string(compressed)}
+	args.SetHistoric(historic)
 	args.Header = tlstatshouse.CommonProxyHeader{ShardReplica: int32(replica), ShardReplicaTotal: 3, HostName: inst.host,
 		ComponentTag: format.TagValueIDComponentAgent, BuildArch: format.GetBuildArchKey(runtime.GOARCH)}
 	client := tlstatshouse.Client{Client: &w1Client{w: w, inst: inst, replica: replica}, Network: "tcp4", Address: w1ConfigResult().Addresses[replica]}
